@@ -9,6 +9,11 @@ import Driver.SparseOps
 import Driver.OverlayOps
 import Driver.StateOps
 import Driver.RenderOps
+import Driver.DepsOps
+import Driver.ElfOps
+import Driver.ParseOps
+import Driver.StartupOps
+import Driver.ListingOps
 /-
 Registry of all operation handlers of the model driver.  One line per component.
 -/
@@ -25,6 +30,11 @@ def allHandlers : List (String × Handler) :=
   sparseHandlers ++
   overlayHandlers ++
   stateHandlers ++
-  renderHandlers
+  renderHandlers ++
+  depsHandlers ++
+  elfHandlers ++
+  parseHandlers ++
+  startupHandlers ++
+  listingHandlers
 
 end Driver
